@@ -66,7 +66,6 @@ def configs(tier):
             dict(N=4, beta_prev=0.0, tol=0.25, D=4, pop="ll"),
             dict(N=3, beta_prev=0.0, tol=0.125, D=8, pop="ll"),
             dict(N=3, beta_prev=0.5, tol=0.25, D=8, pop="ll"),
-            dict(N=3, beta_prev=0.25, tol=0.25, D=16, pop="ll"),
             dict(N=3, beta_prev=0.0, tol=0.25, D=4, pop="all"),
         ]
     for g in grid:
@@ -81,6 +80,8 @@ def configs(tier):
                 c.update(kind="step", target=tk, target_arg=tv, min_step=ms)
                 c["name"] = f"step-N{g['N']}-b{g['beta_prev']}-tol{g['tol']}-{g['pop']}-{tk}{tv or ''}-{ms}"
                 c["timeout_ms"] = 120000
+                if g["N"] >= 3:
+                    c["split_depth"] = 3
                 out.append(c)
     # the non-adaptive branch (fixed step), concrete
     out.append(dict(kind="fixed_step", name="fixed-step-branch", N=2, D=1))
